@@ -15,8 +15,7 @@
    error numbers, 256-octet name buffer), EDNS OPT record contents, no UBSan report. *)
 EXTENDS DnsMsg, ConfLib
 Case == Cases[i]
-RECURSIVE IndexOf(_, _, _)
-IndexOf(s, d, k) == IF k > Len(s) THEN 0 ELSE IF s[k] = d THEN k ELSE IndexOf(s, d, k + 1)
+IndexOf(s, d, k) == LET hits == {j \in k..Len(s) : s[j] = d} IN IF hits = {} THEN 0 ELSE CHOOSE j \in hits : \A h \in hits : j <= h
 RECURSIVE SplitDots(_)
 SplitDots(s) == LET p == IndexOf(s, 46, 1) IN IF p = 0 THEN <<s>> ELSE <<SubSeq(s, 1, p - 1)>> \o SplitDots(SubSeq(s, p + 1, Len(s)))
 \* dotted text -> labels; "" is the root; one trailing dot (absolute notation) is not a label
@@ -36,8 +35,8 @@ RREq(xr, r) == /\ TextLabels(xr.name) = r.name /\ xr.type = r.type /\ xr.class =
 Faithful(k, m) == /\ k.has /\ HeaderEq(k.msg, m) /\ QEq(k.msg.q, m.qd[1])
                   /\ IF m.rcode # 0 THEN k.err = m.rcode
                      ELSE k.err = 0 /\ k.ret = Len(m.an) /\ Len(k.msg.rr) = Len(m.an) /\ \A j \in 1..Len(m.an) : RREq(k.msg.rr[j], m.an[j])
-RECURSIVE SubAt(_, _, _)
-SubAt(s, n, k) == IF k + Len(n) - 1 > Len(s) THEN FALSE ELSE IF SubSeq(s, k, k + Len(n) - 1) = n THEN TRUE ELSE SubAt(s, n, k + 1)
+\* n occurs in s at some position >= k
+SubAt(s, n, k) == \E j \in k..(Len(s) - Len(n) + 1) : SubSeq(s, j, j + Len(n) - 1) = n
 Inside(b, x) == x = <<>> \/ SubAt(b, x, 1)
 TextInside(b, t) == LET p == SplitDots(t) IN \A j \in 1..Len(p) : Inside(b, p[j])
 Safe(k) == ~k.has \/ (/\ TextInside(k.b, k.msg.q.name)
